@@ -1,33 +1,76 @@
 //! C11 P16E1 / P8E0 elementary functions vs correctly rounded tables (oracle/gen_tables.py)
+//!
+//! One harness body per (function, slice): each refers to its own 4096-entry (256 for the edge set) static cut out of the
+//! full table at compile time, so that the goto program of a harness contains — and the solver encodes — only the
+//! entries its slice can index. (With the whole 65536-entry table reachable, CBMC spent about a minute per harness
+//! reading and bit-blasting the table before any solving.)
 use crate::tables as t;
 use crate::{cover, Outcome, Src};
 use softposit::{P16E1, P8E0};
 
+const fn cut<const K: usize>(full: &[u16; 65536]) -> [u16; 4096] {
+    let mut o = [0u16; 4096];
+    let mut i = 0;
+    while i < 4096 {
+        o[i] = full[(K << 12) + i];
+        i += 1;
+    }
+    o
+}
+/// the 256 "edge" inputs: within 32 patterns of 0, 0x4000 (1), 0x8000 (NaR) and 0xC000 (-1); entry (q << 6 | k) is the
+/// result for input (q << 14) + k - 32 (mod 2^16)
+const fn cut_edges(full: &[u16; 65536]) -> [u16; 256] {
+    let mut o = [0u16; 256];
+    let mut i = 0;
+    while i < 256 {
+        let x = (((i >> 6) << 14) + (i & 63) + 65536 - 32) & 0xffff;
+        o[i] = full[x];
+        i += 1;
+    }
+    o
+}
+#[inline(always)]
+fn slice16<S: Src>(s: &mut S, k: u16, tab: &'static [u16; 4096], f: fn(P16E1) -> P16E1) -> Outcome {
+    let x = s.u16();
+    crate::assume!(s, x >> 12 == k);
+    let got = f(P16E1::from_bits(x)).to_bits();
+    cover!(x & 1 == 1);
+    Outcome::eq(got as u64, tab[(x & 0xfff) as usize] as u64)
+}
+#[inline(always)]
+fn edges16<S: Src>(s: &mut S, tab: &'static [u16; 256], f: fn(P16E1) -> P16E1) -> Outcome {
+    let x = s.u16();
+    let xs = x.wrapping_add(32);
+    crate::assume!(s, xs & 0x3fff < 64);
+    let got = f(P16E1::from_bits(x)).to_bits();
+    cover!(x == 0x7fff);
+    Outcome::eq(got as u64, tab[((xs >> 14) << 6 | (xs & 63)) as usize] as u64)
+}
+
 macro_rules! f16 {
-    ($name:ident, $method:ident, $tab:ident) => {
-        /// slice K of 16 by the top 4 input bits; K == 16: the 256 "edge" inputs within 32 patterns of 0, 1, NaR
-        /// and -1 (minpos, maxpos, the longest regimes and the neighbourhood of 1 on both signs); K > 16: no restriction
-        pub fn $name<const K: u32, S: Src>(s: &mut S) -> Outcome {
-            let x = s.u16();
-            crate::assume!(s, K > 16 || (K == 16 && (x.wrapping_add(32) & 0x3fff) < 64) || (x >> 12) as u32 == K);
-            let got = P16E1::from_bits(x).$method().to_bits();
-            cover!(x & 1 == 1);
-            // index only the slice's 4096 entries (a 4096-way instead of a 65536-way selection for the solver)
-            let want = if K < 16 { t::$tab[(K as usize) << 12 | (x & 0xfff) as usize] } else { t::$tab[x as usize] };
-            Outcome::eq(got as u64, want as u64)
+    ($method:ident, $full:ident, $edge_fn:ident $edge_tab:ident, $($name:ident $tab:ident $k:expr),*) => {
+        $(
+            static $tab: [u16; 4096] = cut::<$k>(&t::$full);
+            pub fn $name<S: Src>(s: &mut S) -> Outcome {
+                slice16(s, $k, &$tab, |p| p.$method())
+            }
+        )*
+        static $edge_tab: [u16; 256] = cut_edges(&t::$full);
+        pub fn $edge_fn<S: Src>(s: &mut S) -> Outcome {
+            edges16(s, &$edge_tab, |p| p.$method())
         }
     };
 }
-f16!(exp, exp, EXP16);
-f16!(exp2, exp2, EXP2_16);
-f16!(ln, ln, LN16);
-f16!(log2, log2, LOG2_16);
-f16!(sin_pi, sin_pi, SINPI16);
-f16!(cos_pi, cos_pi, COSPI16);
-f16!(tan_pi, tan_pi, TANPI16);
-f16!(asin_pi, asin_pi, ASINPI16);
-f16!(acos_pi, acos_pi, ACOSPI16);
-f16!(atan_pi, atan_pi, ATANPI16);
+f16!(exp, EXP16, exp_edges EXP16_EDGES, exp_s0 EXP16_S0 0, exp_s1 EXP16_S1 1, exp_s2 EXP16_S2 2, exp_s3 EXP16_S3 3, exp_s4 EXP16_S4 4, exp_s5 EXP16_S5 5, exp_s6 EXP16_S6 6, exp_s7 EXP16_S7 7, exp_s8 EXP16_S8 8, exp_s9 EXP16_S9 9, exp_sa EXP16_SA 10, exp_sb EXP16_SB 11, exp_sc EXP16_SC 12, exp_sd EXP16_SD 13, exp_se EXP16_SE 14, exp_sf EXP16_SF 15);
+f16!(exp2, EXP2_16, exp2_edges EXP2_16_EDGES, exp2_s0 EXP2_16_S0 0, exp2_s1 EXP2_16_S1 1, exp2_s2 EXP2_16_S2 2, exp2_s3 EXP2_16_S3 3, exp2_s4 EXP2_16_S4 4, exp2_s5 EXP2_16_S5 5, exp2_s6 EXP2_16_S6 6, exp2_s7 EXP2_16_S7 7, exp2_s8 EXP2_16_S8 8, exp2_s9 EXP2_16_S9 9, exp2_sa EXP2_16_SA 10, exp2_sb EXP2_16_SB 11, exp2_sc EXP2_16_SC 12, exp2_sd EXP2_16_SD 13, exp2_se EXP2_16_SE 14, exp2_sf EXP2_16_SF 15);
+f16!(ln, LN16, ln_edges LN16_EDGES, ln_s0 LN16_S0 0, ln_s1 LN16_S1 1, ln_s2 LN16_S2 2, ln_s3 LN16_S3 3, ln_s4 LN16_S4 4, ln_s5 LN16_S5 5, ln_s6 LN16_S6 6, ln_s7 LN16_S7 7, ln_s8 LN16_S8 8, ln_s9 LN16_S9 9, ln_sa LN16_SA 10, ln_sb LN16_SB 11, ln_sc LN16_SC 12, ln_sd LN16_SD 13, ln_se LN16_SE 14, ln_sf LN16_SF 15);
+f16!(log2, LOG2_16, log2_edges LOG2_16_EDGES, log2_s0 LOG2_16_S0 0, log2_s1 LOG2_16_S1 1, log2_s2 LOG2_16_S2 2, log2_s3 LOG2_16_S3 3, log2_s4 LOG2_16_S4 4, log2_s5 LOG2_16_S5 5, log2_s6 LOG2_16_S6 6, log2_s7 LOG2_16_S7 7, log2_s8 LOG2_16_S8 8, log2_s9 LOG2_16_S9 9, log2_sa LOG2_16_SA 10, log2_sb LOG2_16_SB 11, log2_sc LOG2_16_SC 12, log2_sd LOG2_16_SD 13, log2_se LOG2_16_SE 14, log2_sf LOG2_16_SF 15);
+f16!(sin_pi, SINPI16, sin_pi_edges SINPI16_EDGES, sin_pi_s0 SINPI16_S0 0, sin_pi_s1 SINPI16_S1 1, sin_pi_s2 SINPI16_S2 2, sin_pi_s3 SINPI16_S3 3, sin_pi_s4 SINPI16_S4 4, sin_pi_s5 SINPI16_S5 5, sin_pi_s6 SINPI16_S6 6, sin_pi_s7 SINPI16_S7 7, sin_pi_s8 SINPI16_S8 8, sin_pi_s9 SINPI16_S9 9, sin_pi_sa SINPI16_SA 10, sin_pi_sb SINPI16_SB 11, sin_pi_sc SINPI16_SC 12, sin_pi_sd SINPI16_SD 13, sin_pi_se SINPI16_SE 14, sin_pi_sf SINPI16_SF 15);
+f16!(cos_pi, COSPI16, cos_pi_edges COSPI16_EDGES, cos_pi_s0 COSPI16_S0 0, cos_pi_s1 COSPI16_S1 1, cos_pi_s2 COSPI16_S2 2, cos_pi_s3 COSPI16_S3 3, cos_pi_s4 COSPI16_S4 4, cos_pi_s5 COSPI16_S5 5, cos_pi_s6 COSPI16_S6 6, cos_pi_s7 COSPI16_S7 7, cos_pi_s8 COSPI16_S8 8, cos_pi_s9 COSPI16_S9 9, cos_pi_sa COSPI16_SA 10, cos_pi_sb COSPI16_SB 11, cos_pi_sc COSPI16_SC 12, cos_pi_sd COSPI16_SD 13, cos_pi_se COSPI16_SE 14, cos_pi_sf COSPI16_SF 15);
+f16!(tan_pi, TANPI16, tan_pi_edges TANPI16_EDGES, tan_pi_s0 TANPI16_S0 0, tan_pi_s1 TANPI16_S1 1, tan_pi_s2 TANPI16_S2 2, tan_pi_s3 TANPI16_S3 3, tan_pi_s4 TANPI16_S4 4, tan_pi_s5 TANPI16_S5 5, tan_pi_s6 TANPI16_S6 6, tan_pi_s7 TANPI16_S7 7, tan_pi_s8 TANPI16_S8 8, tan_pi_s9 TANPI16_S9 9, tan_pi_sa TANPI16_SA 10, tan_pi_sb TANPI16_SB 11, tan_pi_sc TANPI16_SC 12, tan_pi_sd TANPI16_SD 13, tan_pi_se TANPI16_SE 14, tan_pi_sf TANPI16_SF 15);
+f16!(asin_pi, ASINPI16, asin_pi_edges ASINPI16_EDGES, asin_pi_s0 ASINPI16_S0 0, asin_pi_s1 ASINPI16_S1 1, asin_pi_s2 ASINPI16_S2 2, asin_pi_s3 ASINPI16_S3 3, asin_pi_s4 ASINPI16_S4 4, asin_pi_s5 ASINPI16_S5 5, asin_pi_s6 ASINPI16_S6 6, asin_pi_s7 ASINPI16_S7 7, asin_pi_s8 ASINPI16_S8 8, asin_pi_s9 ASINPI16_S9 9, asin_pi_sa ASINPI16_SA 10, asin_pi_sb ASINPI16_SB 11, asin_pi_sc ASINPI16_SC 12, asin_pi_sd ASINPI16_SD 13, asin_pi_se ASINPI16_SE 14, asin_pi_sf ASINPI16_SF 15);
+f16!(acos_pi, ACOSPI16, acos_pi_edges ACOSPI16_EDGES, acos_pi_s0 ACOSPI16_S0 0, acos_pi_s1 ACOSPI16_S1 1, acos_pi_s2 ACOSPI16_S2 2, acos_pi_s3 ACOSPI16_S3 3, acos_pi_s4 ACOSPI16_S4 4, acos_pi_s5 ACOSPI16_S5 5, acos_pi_s6 ACOSPI16_S6 6, acos_pi_s7 ACOSPI16_S7 7, acos_pi_s8 ACOSPI16_S8 8, acos_pi_s9 ACOSPI16_S9 9, acos_pi_sa ACOSPI16_SA 10, acos_pi_sb ACOSPI16_SB 11, acos_pi_sc ACOSPI16_SC 12, acos_pi_sd ACOSPI16_SD 13, acos_pi_se ACOSPI16_SE 14, acos_pi_sf ACOSPI16_SF 15);
+f16!(atan_pi, ATANPI16, atan_pi_edges ATANPI16_EDGES, atan_pi_s0 ATANPI16_S0 0, atan_pi_s1 ATANPI16_S1 1, atan_pi_s2 ATANPI16_S2 2, atan_pi_s3 ATANPI16_S3 3, atan_pi_s4 ATANPI16_S4 4, atan_pi_s5 ATANPI16_S5 5, atan_pi_s6 ATANPI16_S6 6, atan_pi_s7 ATANPI16_S7 7, atan_pi_s8 ATANPI16_S8 8, atan_pi_s9 ATANPI16_S9 9, atan_pi_sa ATANPI16_SA 10, atan_pi_sb ATANPI16_SB 11, atan_pi_sc ATANPI16_SC 12, atan_pi_sd ATANPI16_SD 13, atan_pi_se ATANPI16_SE 14, atan_pi_sf ATANPI16_SF 15);
 
 pub fn exp8<S: Src>(s: &mut S) -> Outcome {
     let x = s.u8();
